@@ -36,6 +36,10 @@ def gen_defs(rng, mode):
         if len(fs) > 1 and rng.random() < 0.3:
             rng.shuffle(fs)   # declared in an order different from the columns; the layout (and the record width) is unchanged
         out.append({"ident": ident, "digits": digits, "fields": fs, "delim": rng.choice([";", ",", "|", "\t", "\t"]) if mode == "delim" else None})
+    if len(out) > 1 and rng.random() < 0.25:
+        for i in range(1, len(out)):
+            if rng.random() < 0.6:
+                out[i]["parent"] = rng.randrange(i)      # a subclass of an earlier register class with its own identifier and LINE
     return out
 
 
